@@ -1,20 +1,16 @@
 ------------------------------ MODULE CritSecProto ------------------------------
 (* C01, M-level conformance of the recorded executions to the protocol of          *)
-(* MPCalContext.Run (CritSecImpl.tla): per attempt and per resource handle, the     *)
+(* MPCalContext.Run (CritSecImpl.tla), checked in the same pass as the P-level      *)
+(* judgement of CritSecObs.tla: per attempt and per resource handle, the            *)
 (* fault-injecting decorators recorded the calls they received, in order (field     *)
 (* "calls" of every "att" event) --                                                 *)
 (* R/W/I (ReadValue / WriteValue / Index), P (PreCommit), C (Commit), A (Abort).    *)
 (* Run must call, on exactly the handles the section touched: PreCommit then Commit *)
 (* if the attempt committed; Abort (possibly after PreCommit) if it did not; and    *)
-(* nothing on untouched handles. A rejection here is MODEL DRIFT (the code no       *)
-(* longer follows the modelled mechanism), not a violation of C01.                  *)
-EXTENDS Naturals, Sequences, FiniteSets, TLC, Json
-
-Trace == ndJsonDeserialize("trace.ndjson")
-VARIABLE l
-
-PInit == l = 1
-PNext == l <= Len(Trace) /\ l' = l + 1
+(* nothing on untouched handles. A violation of ProtoOK is MODEL DRIFT (the code no *)
+(* longer follows the modelled mechanism), not a violation of C01: the case is then *)
+(* judged again by CritSecObs.tla alone.                                            *)
+EXTENDS CritSecObs
 
 IsOp(x)  == x \in {"R", "W", "I"}
 IsEnd(x) == x \in {"P", "C", "A"}
